@@ -149,6 +149,8 @@ def run_row(args):
 def expected(envname, pre):
     """decision table restricted to what can be imported here (libsnark never loads; qaptools loads with the stand-in tools)"""
     order = ["qaptools", "snarkjs", "zkinterface", "zkifbellman", "zkifbulletproofs", "nobackend"]
+    if len(pre) > 1:                        # several pre-imported modules: any of them may be the backend in use, but the
+        return tuple(n for n, m in NAME2MOD.items() if m in pre)   # name must identify the module *and the field* in effect
     if pre:
         return [n for n, m in NAME2MOD.items() if m == pre[0]][0]
     if envname in NAME2MOD:
@@ -166,6 +168,10 @@ def judge(r):
         return ("error" in r), "a known but unloadable backend must fail loudly"
     if "error" in r:
         return False, "selection failed: %s" % r["error"]
+    if isinstance(exp, tuple):
+        if r["name"] not in exp:
+            return False, "backend name %s, expected one of the pre-imported %s" % (r["name"], list(exp))
+        exp = r["name"]
     if r["name"] != exp:
         return False, "backend name %s, expected %s" % (r["name"], exp)
     if r["module"] != NAME2MOD[exp] and not (r["module"] == "pysnark.zkinterface.backend" and exp.startswith("zkif")):
@@ -189,6 +195,14 @@ def rows():
     for n, m in NAME2MOD.items():
         rs.append((None, (m,)))
         rs.append(("snarkjs" if n != "snarkjs" else "nobackend", (m,)))      # pre-import wins over the environment
+    # two modules pre-imported, both orders (the derived zkinterface modules share the base module's field setting:
+    # the reported name must go with the field that is in effect, whichever was imported last)
+    zk = "pysnark.zkinterface."
+    for a, b in ((zk + "backendbellman", zk + "backendbulletproofs"), (zk + "backend", zk + "backendbellman"),
+                 (zk + "backend", zk + "backendbulletproofs"), ("pysnark.snarkjsbackend", "pysnark.nobackend"),
+                 ("pysnark.snarkjsbackend", zk + "backendbellman"), ("pysnark.nobackend", zk + "backendbulletproofs")):
+        rs.append((None, (a, b)))
+        rs.append((None, (b, a)))
     return rs + rows_libsnark()
 
 
